@@ -270,7 +270,7 @@ class expr_subscript(expr):
                 ret = expr(ExprIndexedFieldRefModel(em, [idx], [aname]))
             elif aname in fm.type_t.constraint_dynamic_m.keys():
                 idx = fm.type_t.constraint_dynamic_m[aname]
-                ret = dynamic_constraint_proxy(ExprIndexedDynRefModel(em, idx))
+                ret = dynamic_constraint_proxy(ExprIndexedDynRefModel(em, idx, aname))
             else:
                 raise Exception("Type %s does not contain a field \"%s\"" % (
                     fm.type_t.name, aname))
